@@ -12,6 +12,7 @@ import (
 	"path/filepath"
 	"reflect"
 	"runtime"
+	"runtime/pprof"
 	"sort"
 	"strings"
 	"sync"
@@ -156,7 +157,11 @@ type base struct {
 	seq   int
 }
 
-var sharedConfig = core.DefaultConfiguration()
+var sharedConfig = func() *core.Configuration {
+	c := core.DefaultConfiguration()
+	c.Parse.BuildFileName = []string{"BUILD", "BUILD.plz"} // what reading any .plzconfig leaves there; CONFIG.BUILD_FILE_NAMES
+	return c
+}()
 
 func newBase() *base {
 	state := core.NewBuildState(sharedConfig)
@@ -596,11 +601,27 @@ func main() {
 
 	if os.Getenv("VERIF_C17_BENCH") != "" {
 		c := pkgCode(defsList[0], mutator{Name: "none"})
+		pf, _ := os.Create("/tmp/c17.prof")
+		pprof.StartCPUProfile(pf)
+		defer pprof.StopCPUProfile()
 		t := time.Now()
 		for i := 0; i < 500; i++ {
 			runSchedule([]string{c, c}, []int{0, 0, 1, 1})
 		}
 		fmt.Printf("runSchedule(2 pkgs): %v each\n", time.Since(t)/500)
+		pprof.StopCPUProfile()
+		t = time.Now()
+		for i := 0; i < 500; i++ {
+			w := newWorld()
+			w.release()
+		}
+		fmt.Printf("newWorld (parser+builtins): %v each\n", time.Since(t)/500)
+		t = time.Now()
+		st := core.NewBuildState(sharedConfig)
+		for i := 0; i < 500; i++ {
+			asp.NewParser(st)
+		}
+		fmt.Printf("NewParser: %v each\n", time.Since(t)/500)
 		os.Exit(0)
 	}
 	if r.Replay != "" {
@@ -609,6 +630,7 @@ func main() {
 		// the defs file of the witness replaces d0's
 		os.WriteFile(filepath.Join(gen, "replay.build_defs"), []byte(w.Defs), 0o644)
 		defsList = append(defsList, defsT{Name: "replay"})
+		initBases(2) // again: the graph must know the replay target
 		codes := make([]string, len(w.Packages))
 		for i, c := range w.Packages {
 			j := strings.Index(c, "\n")
@@ -634,11 +656,39 @@ func main() {
 		}
 	}
 
-	// job list, simplest first
+	// job list, simplest first. "core" mutators = the paths that differ in mechanism (the rest are syntactic variants
+	// of index-assignment); the reduced sets keep the deeper tiers affordable.
+	corePaths := map[string]bool{"index-assign-through-alias": true, "sorted": true, "reversed": true, "add-empty-then-index-assign": true,
+		"full-slice-then-index-assign": true, "prefix-slice-then-add": true, "function-argument-index-assign": true, "augassign-rebinding": true,
+		"index-assign-new-key-through-alias": true, "index-assign-existing-key-through-alias": true, "setdefault": true, "union": true,
+		"iterate-and-index-assign": true, "values-then-index-assign": true}
+	core := func(ms []mutator) []mutator {
+		out := []mutator{}
+		for _, m := range ms {
+			if m.Name == "none" || m.expr == "" || corePaths[m.path] {
+				out = append(out, m)
+			}
+		}
+		return out
+	}
+	full := map[string][]mutator{}
+	for _, d := range defsList {
+		ms := mutatorsFor(d)
+		if r.Quick() && d.Name == "d4" { // quick: the value-independent locations (function literals, CONFIG) with the core paths only
+			keep := []mutator{}
+			for _, m := range ms {
+				if m.Name == "none" || m.expr == "" || strings.HasPrefix(m.loc, "exported-") || corePaths[m.path] {
+					keep = append(keep, m)
+				}
+			}
+			ms = keep
+		}
+		full[d.Name] = ms
+	}
 	var jobs []job
 	mutCount := 0
 	for _, d := range defsList {
-		ms := mutatorsFor(d)
+		ms := full[d.Name]
 		mutCount += len(ms) - 1
 		for _, a := range ms { // ordered pairs, all orders
 			for _, b := range ms {
@@ -648,26 +698,23 @@ func main() {
 	}
 	pairJobs := len(jobs)
 	for _, d := range defsList {
-		ms := mutatorsFor(d)
+		ms := full[d.Name]
 		none := ms[0]
 		for _, a := range ms[1:] { // mutator interleaved with a pure observer
 			jobs = append(jobs, job{d, []mutator{a, none}, "interleavings"})
 		}
 	}
 	if !r.Quick() {
-		for _, d := range defsList {
-			ms := mutatorsFor(d)
+		for _, d := range defsList { // every pair of core mutators, all statement interleavings
+			ms := core(full[d.Name])
 			for _, a := range ms[1:] {
 				for _, b := range ms[1:] {
 					jobs = append(jobs, job{d, []mutator{a, b}, "interleavings"})
 				}
 			}
 		}
-		for _, d := range defsList { // ordered triples
-			ms := mutatorsFor(d)
-			if d.Name == "d4" {
-				ms = ms[:1+15+15] // the value-independent extras were covered pairwise; keep triples affordable
-			}
+		for _, d := range defsList { // ordered triples of core mutators
+			ms := core(full[d.Name])
 			for _, a := range ms {
 				for _, b := range ms {
 					for _, c := range ms {
@@ -772,7 +819,7 @@ func main() {
 			"mutation_paths":    mutCount,
 			"ordered_pair_scenarios": pairJobs,
 			"jobs":              len(jobs),
-			"tiers":             "quick: all ordered pairs of packages (whole-package orders) + every statement interleaving of each mutator with a pure observer; thorough: additionally every statement interleaving of every pair of mutators and all ordered triples",
+			"tiers":             "quick: all ordered pairs of packages (whole-package orders) + every statement interleaving of each mutator with a pure observer (function-literal/CONFIG locations with the 8 core paths only); thorough: all paths everywhere, additionally every statement interleaving of every pair of core mutators and all ordered triples of core mutators",
 		},
 	})
 }
